@@ -148,9 +148,46 @@ fn int_patterns(r: &mut Rng, n: usize, thorough: bool) -> Vec<B> {
             }
         }
     }
+    // "just above a tie": even kept mantissa, round bit set, ONE sticky bit -- at every position below the round bit (the
+    // sticky information is gathered digit by digit; a slice of one digit that is never looked at only shows here), for
+    // the full bit length and one random length, both float formats.  `stride` thins the positions (width sweep).
+    let stride = STICKY_STRIDE.with(|c| c.get()).max(1);
+    let mut ls = vec![w, 1 + r.below(w as u64) as usize];
+    if w > 140 {
+        ls.push(130 + r.below((w - 130) as u64) as usize);
+    }
+    for l in ls {
+        for keep in [24usize, 53] {
+            if l <= keep + 1 {
+                continue;
+            }
+            let nst = l - keep - 1;
+            let mut base = vec![0u8; n];
+            let setb = |x: &mut B, i: usize| x[i / 8] |= 1 << (i % 8);
+            setb(&mut base, l - 1);
+            for k in 1..keep {
+                if r.below(2) == 1 && k != keep - 1 {
+                    setb(&mut base, l - 1 - k); // random mantissa, lowest kept bit left clear (even)
+                }
+            }
+            setb(&mut base, l - keep - 1); // round bit
+            let mut k = (r.below(stride as u64)) as usize;
+            while k < nst {
+                let mut x = base.clone();
+                setb(&mut x, k);
+                v.push(x);
+                k += stride;
+            }
+        }
+    }
     v.sort();
     v.dedup();
     v
+}
+
+thread_local! {
+    /// distance between the single-sticky-bit positions tried by `int_patterns` (1 = every position)
+    static STICKY_STRIDE: std::cell::Cell<usize> = std::cell::Cell::new(1);
 }
 
 fn c14_type<T>(rec: &mut Rec, seed: u64, thorough: bool)
@@ -421,6 +458,9 @@ fn main() {
     let prop = cli.prop.clone();
     let sink = Sink::new(&cli.out, &prop);
     let prims = cli.extra.iter().any(|x| x == "--prims");
+    if cli.extra.iter().any(|x| x == "--sweep") {
+        STICKY_STRIDE.with(|c| c.set(7)); // the width sweep tries every seventh sticky position (random offset)
+    }
     CTX.with(|c| *c.borrow_mut() = Some(Ctx { cli, sink }));
     if prims {
         for_prims!(run_prim);
